@@ -570,6 +570,8 @@ func (c *Client) handleFetch(seqNum uint32) error {
 		case "UID":
 			if !dec.ExpectSP() || !dec.ExpectUID(&uid) {
 				return dec.Err()
+			} else if uid == 0 {
+				return fmt.Errorf("in uniqueid: UIDs must be non-zero")
 			}
 
 			item = FetchItemDataUID{UID: uid}
